@@ -12,7 +12,9 @@ RULE = ("part 'table' (exhaustive): every E line over (o1,o2) in {+,-}^2 x inter
         "{empty prefix, prefix, whole, inner, empty inner, suffix, empty suffix} (196 cells) x {E after its "
         "segments, E before its segments} x {two segments, self-edge}, and every L, C, G line over the 4 "
         "orientation pairs x {distinct, self, parallel}; every cell is a non-trivial case. part 'graphs': "
-        "generated GFA1/GFA2 documents; non-trivial = some segment has >= 2 entries in one collection. Oracle: "
+        "generated GFA1/GFA2 documents; non-trivial = some segment has >= 2 entries in one collection. parts "
+        "'hist-*': the same comparisons after every step of a model-based history (removals, renames, "
+        "placeholder substitution); non-trivial = a removal or rename happened at a closed state. Oracle: "
         "collections (dovetails_L/R, edges_to_contained/containers, internals, gaps_L/R, fragments, paths, sets), "
         "is_dovetail/containment/internal, from_end/to_end/other_end/other, neighbours(_L/_R), containers, "
         "contained, containments, edges, connectivity, gfa.dovetails/containments compared with the model")
@@ -231,8 +233,48 @@ def st_graph(draw):
     return {"doc": {"version": v, "lines": doc["lines"]}}
 
 
+def prop_hist(case):
+    """Neighbourhoods after removals / renames / placeholder substitution (C11 part b)."""
+    from .. import history as H
+    version = case["version"]
+    run = H.Runner(version, vlevel=1)
+    nt = False
+    for step, op in enumerate(case["ops"]):
+        try:
+            run.apply(op)
+        except Exception as e:
+            raise Violation("step", "legal step %d %r raised %s: %s\n%s" % (step, op, type(e).__name__, str(e)[:300], run.model.text()),
+                            "%s/%s" % (op[0], type(e).__name__))
+        probs = O.check_refs_against_model(run.gfa, run.model)
+        if probs:
+            raise Violation("collections", "after step %d %r:\n%s\nmodel:\n%s" % (step, op, "\n".join(probs[:5]), run.model.text()), op[0])
+        if run.model.is_closed():
+            try:
+                check_derived(run.gfa, run.model)
+            except Violation as v:
+                raise Violation(v.sub, "after step %d %r: %s" % (step, op, v.msg), op[0])
+            except Exception as e:
+                raise Violation("query-raised", "after step %d %r a neighbourhood query raised %s: %s\n%s" % (
+                    step, op, type(e).__name__, str(e)[:300], run.model.text()), type(e).__name__)
+            if op[0] in ("rm", "rm_i", "disc", "rename"):
+                nt = True
+    return {"nt": nt, "version": version}
+
+
+def st_hist(version):
+    from .. import history as H
+
+    @st.composite
+    def s(draw):
+        r = draw(st.randoms(use_true_random=False))
+        return H.gen_history(r, version, {"p_rm": 0.3, "p_rename": 0.12, "load": 0.8, "steps": (3, 14)})
+    return s()
+
+
 def parts(tier):
     n = 250 if tier == "quick" else 1200
     return [Part("table", prop_table, enum=enum_table, exhaustive=True, quick_shards=4,
                  note="complete enumeration of the E-line classification table and of L/C/G orientation pairs"),
-            Part("graphs", prop_graph, strategy=st_graph(), n=n, quick_shards=2)]
+            Part("graphs", prop_graph, strategy=st_graph(), n=n, quick_shards=2),
+            Part("hist-gfa1", prop_hist, strategy=st_hist("gfa1"), n=80 if tier == "quick" else 400),
+            Part("hist-gfa2", prop_hist, strategy=st_hist("gfa2"), n=80 if tier == "quick" else 400)]
